@@ -10,6 +10,7 @@ from sa.source import methods
 from sa.props._lib_d import (NONNULL, call_nodes, calls_with, const_value_is, handler_names, implied, local_def, path_under, peval,
                              reach_under, self_assigns, slice_parts, succ_of, test_value)
 from sa.props._lib_d import must_pass_under as _must_pass_under
+from sa.props._lib_d import Views
 
 PROPERTY = "C17"
 T = "protocols/tls.py"
@@ -40,6 +41,32 @@ ASSUMPTIONS = [
 ]
 Q = "twisted.protocols.tls."
 QP = Q + "TLSMemoryBIOProtocol."
+
+# methods the rules are written against; any other private method of these classes is a helper introduced later and is analysed as
+# if inlined at its call sites (sa.props._lib_d.Inliner / Views)
+KNOWN = {'protocols/tls.py': {'BufferingTLSTransport': ['__init__', 'loseConnection', 'writeSequence'],
+                      'TLSMemoryBIOProtocol': ['__init__', '_bufferedWrite', '_checkHandshakeStatus', '_flushReceiveBIO', '_flushSendBIO', '_shutdownTLS', '_tlsShutdownFinished',
+                                               '_unbufferPendingWrites', '_write', 'abortConnection', 'connectionLost', 'dataReceived', 'failVerification', 'getHandle',
+                                               'getPeerCertificate', 'loseConnection', 'makeConnection', 'negotiatedProtocol', 'registerProducer', 'unregisterProducer', 'write',
+                                               'writeSequence'],
+                      '_AggregateSmallWrites': ['__init__', '_scheduledFlush', 'flush', 'write'],
+                      '_ProducerMembrane': ['__init__', 'pauseProducing', 'resumeProducing', 'stopProducing']}}
+
+
+def _views(ctx):
+    v = ctx.__dict__.get("_views_d")
+    if v is None:
+        v = ctx.__dict__["_views_d"] = Views(ctx, KNOWN)
+    return v
+
+
+def _F(ctx, rel, qual):
+    return _views(ctx).f(rel, qual)
+
+
+def _M(ctx, rel, cls_name):
+    return _views(ctx).methods(rel, cls_name)
+
 
 
 def must_pass_under(g, facts, via, srcs=None, to=None):
@@ -81,15 +108,15 @@ def _liveness(ctx):
     writes drain on incoming data.  Transitions are read off the guards of the five functions involved."""
     B_ = lambda b: NONNULL if b else ()          # noqa: E731
     P_ = lambda p: NONNULL if p else None        # noqa: E731
-    fl = ctx.func(T, "TLSMemoryBIOProtocol.loseConnection")
+    fl = _F(ctx, T, "TLSMemoryBIOProtocol.loseConnection")
     gl = ctx.cfg(fl)
-    fu = ctx.func(T, "TLSMemoryBIOProtocol.unregisterProducer")
+    fu = _F(ctx, T, "TLSMemoryBIOProtocol.unregisterProducer")
     gu = ctx.cfg(fu)
-    fb = ctx.func(T, "TLSMemoryBIOProtocol._unbufferPendingWrites")
+    fb = _F(ctx, T, "TLSMemoryBIOProtocol._unbufferPendingWrites")
     gb = ctx.cfg(fb)
-    fdr = ctx.func(T, "TLSMemoryBIOProtocol.dataReceived")
+    fdr = _F(ctx, T, "TLSMemoryBIOProtocol.dataReceived")
     gd = ctx.cfg(fdr)
-    fh = ctx.func(T, "TLSMemoryBIOProtocol._checkHandshakeStatus")
+    fh = _F(ctx, T, "TLSMemoryBIOProtocol._checkHandshakeStatus")
     gh = ctx.cfg(fh)
     loops = [n for n in gb.nodes if n.kind == "for" and gb.reachable(n.id)]
     ctx.need(len(loops) == 1, "the re-write loop of _unbufferPendingWrites")
@@ -214,7 +241,7 @@ def check(ctx):
         # ---- (a) connectionLost / data delivery ----------------------------------------------------------------------------
         sites_cl, sites_dr = [], []
         for c_ in (cls, sub):
-            for name, m in methods(c_).items():
+            for name, m in _M(ctx, T, c_.name):
                 gm = ctx.cfg(m)
                 for n, call in _base_calls(gm, "connectionLost"):
                     sites_cl.append((c_.name, name, n, call))
@@ -228,7 +255,7 @@ def check(ctx):
                       "application data is delivered from outside _flushReceiveBIO (bypassing the lost/aborted checks)")
     with ctx.section("TLSMemoryBIOProtocol.connectionLost"):
         # ---- sec: TLSMemoryBIOProtocol.connectionLost
-        f = ctx.func(T, "TLSMemoryBIOProtocol.connectionLost")
+        f = _F(ctx, T, "TLSMemoryBIOProtocol.connectionLost")
         g = ctx.cfg(f)
         q = QP + "connectionLost"
         base = _base_calls(g, "connectionLost")
@@ -263,7 +290,7 @@ def check(ctx):
             ctx.check(ok, "lost/first-reason-wins", c, "the application is not given 'the recorded TLS-level reason, else the transport's reason'")
     with ctx.section("TLSMemoryBIOProtocol._flushReceiveBIO"):
         # ---- sec: TLSMemoryBIOProtocol._flushReceiveBIO
-        f = ctx.func(T, "TLSMemoryBIOProtocol._flushReceiveBIO")
+        f = _F(ctx, T, "TLSMemoryBIOProtocol._flushReceiveBIO")
         g = ctx.cfg(f)
         q = QP + "_flushReceiveBIO"
         recv = calls_with(g, "self._tlsConnection.recv")
@@ -310,7 +337,7 @@ def check(ctx):
         }
         nsites = 0
         for c_ in (cls, sub):
-            for name, m in methods(c_).items():
+            for name, m in _M(ctx, T, c_.name):
                 gm = ctx.cfg(m)
                 for n, call in calls_with(gm, "self._shutdownTLS"):
                     nsites += 1
@@ -338,7 +365,7 @@ def check(ctx):
 
     with ctx.section("TLSMemoryBIOProtocol._shutdownTLS"):
         # ---- sec: TLSMemoryBIOProtocol._shutdownTLS
-        f = ctx.func(T, "TLSMemoryBIOProtocol._shutdownTLS")
+        f = _F(ctx, T, "TLSMemoryBIOProtocol._shutdownTLS")
         g = ctx.cfg(f)
         q = QP + "_shutdownTLS"
         sh = calls_with(g, "self._tlsConnection.shutdown")
@@ -372,7 +399,7 @@ def check(ctx):
 
     with ctx.section("TLSMemoryBIOProtocol._tlsShutdownFinished"):
         # ---- sec: TLSMemoryBIOProtocol._tlsShutdownFinished
-        f = ctx.func(T, "TLSMemoryBIOProtocol._tlsShutdownFinished")
+        f = _F(ctx, T, "TLSMemoryBIOProtocol._tlsShutdownFinished")
         g = ctx.cfg(f)
         q = QP + "_tlsShutdownFinished"
         lc = call_nodes(g, "self.transport.loseConnection", "self.transport.abortConnection")
@@ -394,7 +421,7 @@ def check(ctx):
         # wake-ups of a postponed shutdown
     with ctx.section("TLSMemoryBIOProtocol._unbufferPendingWrites"):
         # ---- sec: TLSMemoryBIOProtocol._unbufferPendingWrites
-        f = ctx.func(T, "TLSMemoryBIOProtocol._unbufferPendingWrites")
+        f = _F(ctx, T, "TLSMemoryBIOProtocol._unbufferPendingWrites")
         g = ctx.cfg(f)
         q = QP + "_unbufferPendingWrites"
         loops = [n for n in g.nodes if n.kind == "for" and g.reachable(n.id)]
@@ -442,8 +469,10 @@ def check(ctx):
                   "is re-buffered during the loop is appended to the list being iterated (endless loop / duplicated bytes) or wiped afterwards")
         acc = class_accesses(mod, cls, {"_appSendBuffer"}, {"self"})
         for a in acc:
-            okk = (a.func.endswith("._bufferedWrite") and a.kind == "append") or (a.func.endswith(".makeConnection") and a.kind in ("rebind-empty", "assign")) \
-                or (a.func.endswith("._unbufferPendingWrites") and a.kind in ("assign", "rebind-empty"))
+            inl_ = _views(ctx).inliner(T)
+            fn_ = a.func.split(".")[-1]          # a helper unknown to the rules inherits the permission of all its callers
+            okk = (a.kind == "append" and inl_.permitted(fn_, {"_bufferedWrite"})) \
+                or (a.kind in ("rebind-empty", "assign") and inl_.permitted(fn_, {"makeConnection", "_unbufferPendingWrites"}))
             ctx.check(okk, "buffer/fifo-who-may-write", ctx.construct(Q + a.func, a.node),
                       f"_appSendBuffer is modified by '{a.kind}' here: pending application writes must only be appended (FIFO) by _bufferedWrite "
                       "and detached by _unbufferPendingWrites")
@@ -451,7 +480,7 @@ def check(ctx):
 
     with ctx.section("TLSMemoryBIOProtocol.unregisterProducer"):
         # ---- sec: TLSMemoryBIOProtocol.unregisterProducer
-        f = ctx.func(T, "TLSMemoryBIOProtocol.unregisterProducer")
+        f = _F(ctx, T, "TLSMemoryBIOProtocol.unregisterProducer")
         g = ctx.cfg(f)
         q = QP + "unregisterProducer"
         st = call_nodes(g, "self._shutdownTLS")
@@ -479,7 +508,7 @@ def check(ctx):
 
     with ctx.section("TLSMemoryBIOProtocol.loseConnection"):
         # ---- sec: TLSMemoryBIOProtocol.loseConnection
-        f = ctx.func(T, "TLSMemoryBIOProtocol.loseConnection")
+        f = _F(ctx, T, "TLSMemoryBIOProtocol.loseConnection")
         g = ctx.cfg(f)
         q = QP + "loseConnection"
         st = call_nodes(g, "self._shutdownTLS")
@@ -508,7 +537,7 @@ def check(ctx):
         # ---- (c) the write path --------------------------------------------------------------------------------------------------------
     with ctx.section("TLSMemoryBIOProtocol._write"):
         # ---- sec: TLSMemoryBIOProtocol._write
-        f = ctx.func(T, "TLSMemoryBIOProtocol._write")
+        f = _F(ctx, T, "TLSMemoryBIOProtocol._write")
         g = ctx.cfg(f)
         q = QP + "_write"
         bparam = f.args.args[1].arg
@@ -562,7 +591,7 @@ def check(ctx):
 
     with ctx.section("TLSMemoryBIOProtocol.write"):
         # ---- sec: TLSMemoryBIOProtocol.write
-        f = ctx.func(T, "TLSMemoryBIOProtocol.write")
+        f = _F(ctx, T, "TLSMemoryBIOProtocol.write")
         g = ctx.cfg(f)
         q = QP + "write"
         bparam = f.args.args[1].arg
@@ -578,13 +607,13 @@ def check(ctx):
                 ctx.check(not (reach_under(g, facts) & set(wr)), "write/dropped-only-after-close", c, "bytes written after loseConnection() are still sent")
     with ctx.section("TLSMemoryBIOProtocol.writeSequence"):
         # ---- sec: TLSMemoryBIOProtocol.writeSequence
-        f = ctx.func(T, "TLSMemoryBIOProtocol.writeSequence")
+        f = _F(ctx, T, "TLSMemoryBIOProtocol.writeSequence")
         ip = f.args.args[1].arg
         ok = any(call_name(c) == "self.write" and c.args and src(c.args[0]) == f"b''.join({ip})" for c in walk_local(f) if isinstance(c, ast.Call))
         ctx.check(ok, "write/sequence-routes-through-write", QP + "writeSequence", "writeSequence does not go through write(b''.join(iovec)) (disconnect / ordering rules bypassed)")
     with ctx.section("TLSMemoryBIOProtocol._bufferedWrite"):
         # ---- sec: TLSMemoryBIOProtocol._bufferedWrite
-        f = ctx.func(T, "TLSMemoryBIOProtocol._bufferedWrite")
+        f = _F(ctx, T, "TLSMemoryBIOProtocol._bufferedWrite")
         g = ctx.cfg(f)
         q = QP + "_bufferedWrite"
         ps = call_nodes(g, "self._producer.pauseProducing")
@@ -593,7 +622,7 @@ def check(ctx):
         ctx.check(not (reach_under(g, {"self._producer": None}) & set(ps)), "backpressure/pause-on-buffering", q + " | <no producer>", "pauseProducing on None")
     with ctx.section("TLSMemoryBIOProtocol._flushSendBIO"):
         # ---- sec: TLSMemoryBIOProtocol._flushSendBIO
-        f = ctx.func(T, "TLSMemoryBIOProtocol._flushSendBIO")
+        f = _F(ctx, T, "TLSMemoryBIOProtocol._flushSendBIO")
         g = ctx.cfg(f)
         q = QP + "_flushSendBIO"
         br = calls_with(g, "self._tlsConnection.bio_read")
@@ -605,7 +634,7 @@ def check(ctx):
         # buffering subclass + aggregator
     with ctx.section("BufferingTLSTransport.loseConnection"):
         # ---- sec: BufferingTLSTransport.loseConnection
-        f = ctx.func(T, "BufferingTLSTransport.loseConnection")
+        f = _F(ctx, T, "BufferingTLSTransport.loseConnection")
         g = ctx.cfg(f)
         q = Q + "BufferingTLSTransport.loseConnection"
         fl = call_nodes(g, "self._aggregator.flush")
@@ -618,21 +647,21 @@ def check(ctx):
                       witness=g.describe(w))
     with ctx.section("BufferingTLSTransport.writeSequence"):
         # ---- sec: BufferingTLSTransport.writeSequence
-        f = ctx.func(T, "BufferingTLSTransport.writeSequence")
+        f = _F(ctx, T, "BufferingTLSTransport.writeSequence")
         ip = f.args.args[1].arg
         ok = any(call_name(c) in ("self._aggregator.write", "self.write") and c.args and src(c.args[0]) == f"b''.join({ip})" for c in walk_local(f) if isinstance(c, ast.Call))
         ctx.check(ok, "aggregate/sequence-routes-through-aggregator", Q + "BufferingTLSTransport.writeSequence",
                   "writeSequence bypasses the aggregator: its bytes overtake earlier small writes still waiting there")
     with ctx.section("BufferingTLSTransport.__init__"):
         # ---- sec: BufferingTLSTransport.__init__
-        f = ctx.func(T, "BufferingTLSTransport.__init__")
+        f = _F(ctx, T, "BufferingTLSTransport.__init__")
         srcs_ = [src(st) for st in walk_local(f) if isinstance(st, ast.Assign)]
         ctx.check("self.write = self._aggregator.write" in srcs_ and any(s.startswith("self._aggregator = _AggregateSmallWrites(") for s in srcs_),
                   "aggregate/write-routes-through-aggregator", Q + "BufferingTLSTransport.__init__", "write is not bound to the aggregator")
 
     with ctx.section("_AggregateSmallWrites.write"):
         # ---- sec: _AggregateSmallWrites.write
-        f = ctx.func(T, "_AggregateSmallWrites.write")
+        f = _F(ctx, T, "_AggregateSmallWrites.write")
         g = ctx.cfg(f)
         q = A + "write"
         dp = f.args.args[1].arg
@@ -658,7 +687,7 @@ def check(ctx):
         ctx.check(not (R & {n for n, _ in cl}), "aggregate/one-timer", q + " | <flush already scheduled>", "a second flush timer is started while one is pending")
     with ctx.section("_AggregateSmallWrites._scheduledFlush"):
         # ---- sec: _AggregateSmallWrites._scheduledFlush
-        f = ctx.func(T, "_AggregateSmallWrites._scheduledFlush")
+        f = _F(ctx, T, "_AggregateSmallWrites._scheduledFlush")
         g = ctx.cfg(f)
         q = A + "_scheduledFlush"
         rs = self_assigns(g, "_scheduled", lambda v: const_value_is(v, lambda x: x is None))
@@ -668,7 +697,7 @@ def check(ctx):
         ctx.check(bool(fl) and g.must_pass([g.entry], fl) is None, "aggregate/timer-flushes", q, "the timer does not flush the buffer")
     with ctx.section("_AggregateSmallWrites.flush"):
         # ---- sec: _AggregateSmallWrites.flush
-        f = ctx.func(T, "_AggregateSmallWrites.flush")
+        f = _F(ctx, T, "_AggregateSmallWrites.flush")
         g = ctx.cfg(f)
         q = A + "flush"
         wr = [(n, c) for n, c in calls_with(g, "self._write")]
@@ -677,7 +706,8 @@ def check(ctx):
         ctx.check(w is None, "aggregate/flush-writes", q + " | <non-empty>", "flush() does not write the aggregated bytes", witness=g.describe(w))
         for n, c in wr:
             ctx.check(len(c.args) == 1 and src(c.args[0]) == "b''.join(self._buffer)", "aggregate/flush-writes", ctx.construct(q, c), "flush() does not write the buffered pieces joined in order")
-        acc = [a for a in class_accesses(mod, ctx.cls(T, "_AggregateSmallWrites"), {"_buffer"}, {"self"}) if a.func.endswith(".flush")]
+        from sa.effects import accesses as _accesses
+        acc = _accesses(f, "_AggregateSmallWrites.flush", {"_buffer"}, {"self"})
         clears = [i for a in acc if a.kind in ("clear", "rebind-empty", "del-prefix") for i in g.ids_of(a.node)]
         w = must_pass_under(g, facts, clears)
         ctx.check(w is None, "aggregate/flush-empties", q + " | <non-empty>", "the aggregation buffer is not emptied by flush(): the same bytes are written again", witness=g.describe(w))
@@ -688,7 +718,7 @@ def check(ctx):
         # ---- (d) dataReceived, handshake, producers --------------------------------------------------------------------------------------
     with ctx.section("TLSMemoryBIOProtocol.dataReceived"):
         # ---- sec: TLSMemoryBIOProtocol.dataReceived
-        f = ctx.func(T, "TLSMemoryBIOProtocol.dataReceived")
+        f = _F(ctx, T, "TLSMemoryBIOProtocol.dataReceived")
         g = ctx.cfg(f)
         q = QP + "dataReceived"
         bparam = f.args.args[1].arg
@@ -716,7 +746,7 @@ def check(ctx):
                       "do_handshake() is driven again after the handshake completed")
     with ctx.section("TLSMemoryBIOProtocol._checkHandshakeStatus"):
         # ---- sec: TLSMemoryBIOProtocol._checkHandshakeStatus
-        f = ctx.func(T, "TLSMemoryBIOProtocol._checkHandshakeStatus")
+        f = _F(ctx, T, "TLSMemoryBIOProtocol._checkHandshakeStatus")
         g = ctx.cfg(f)
         q = QP + "_checkHandshakeStatus"
         dh = call_nodes(g, "self._tlsConnection.do_handshake")
@@ -743,7 +773,7 @@ def check(ctx):
 
     with ctx.section("TLSMemoryBIOProtocol.registerProducer"):
         # ---- sec: TLSMemoryBIOProtocol.registerProducer
-        f = ctx.func(T, "TLSMemoryBIOProtocol.registerProducer")
+        f = _F(ctx, T, "TLSMemoryBIOProtocol.registerProducer")
         g = ctx.cfg(f)
         q = QP + "registerProducer"
         pp = f.args.args[1].arg
@@ -765,7 +795,7 @@ def check(ctx):
         mem = [x.id for x in g.nodes if x.kind == "stmt" and isinstance(x.ast, ast.Assign) and isinstance(x.ast.value, ast.Call) and call_name(x.ast.value) == "_ProducerMembrane"]
         ctx.check(bool(mem) and all(g.must_precede(mem, [s]) is None for s in store), "producer/membrane", q, "the producer is stored without the pause/resume membrane")
         for name, flagval, callee in (("pauseProducing", True, "self._producer.pauseProducing"), ("resumeProducing", False, "self._producer.resumeProducing")):
-            f = ctx.func(T, f"_ProducerMembrane.{name}")
+            f = _F(ctx, T, f"_ProducerMembrane.{name}")
             g = ctx.cfg(f)
             q = Q + f"_ProducerMembrane.{name}"
             cs = call_nodes(g, callee)
@@ -778,7 +808,7 @@ def check(ctx):
                       "the membrane flag is not updated before the producer call-out (a producer that writes from resumeProducing and gets paused again is left inconsistent)")
     with ctx.section("TLSMemoryBIOProtocol.abortConnection"):
         # ---- sec: TLSMemoryBIOProtocol.abortConnection
-        f = ctx.func(T, "TLSMemoryBIOProtocol.abortConnection")
+        f = _F(ctx, T, "TLSMemoryBIOProtocol.abortConnection")
         g = ctx.cfg(f)
         q = QP + "abortConnection"
         need = {"_aborted = True": self_assigns(g, "_aborted", lambda v: const_value_is(v, lambda x: x is True)),
@@ -841,6 +871,9 @@ MUTANTS = [
            expect_rule="liveness/postponed-close-is-picked-up"),
     Mutant("handshake-completion-skips-unbuffer", T, "        if self._appSendBuffer:\n            self._unbufferPendingWrites()\n\n        # Since", "        # Since",
            expect_rule="liveness/postponed-close-is-picked-up"),
+    Mutant("helper-shuts-down-while-writes-buffered", T, "        self.disconnecting = True\n        if not self._appSendBuffer and self._producer is None:\n            self._shutdownTLS()\n\n    def abortConnection",
+           "        self.disconnecting = True\n        self._shutdownIfIdle()\n\n    def _shutdownIfIdle(self):\n        idle = self._producer is None\n        if idle:\n            self._shutdownTLS()\n\n    def abortConnection",
+           expect_rule="shutdown/not-while-writes-buffered"),
     Mutant("buffering-writesequence-bypasses-aggregator", T, "        self._aggregator.write(b\"\".join(sequence))", "        super().write(b\"\".join(sequence))",
            expect_rule="aggregate/sequence-routes-through-aggregator"),
 ]
@@ -862,5 +895,9 @@ SILENT = [
            "        if not self._handshakeDone and not self._appSendBuffer and self._producer is None:\n            self.abortConnection()\n",
            more=[(T, "        if self.disconnecting and not self._appSendBuffer:\n            self._shutdownTLS()\n\n\n@implementer",
                   "        if self.disconnecting and not self._appSendBuffer:\n            if self._handshakeDone:\n                self._shutdownTLS()\n            else:\n                self.abortConnection()\n\n\n@implementer")]),
+    Silent("drain-tail-extracted-into-helper", T, "        if self._appSendBuffer:\n            # If OpenSSL ran out of buffer space in the Connection on our way\n",
+           "        self._afterDrain()\n\n    def _afterDrain(self):\n        if self._appSendBuffer:\n            # If OpenSSL ran out of buffer space in the Connection on our way\n"),
+    Silent("lose-tail-in-helper-with-named-condition", T, "        self.disconnecting = True\n        if not self._appSendBuffer and self._producer is None:\n            self._shutdownTLS()\n\n    def abortConnection",
+           "        self.disconnecting = True\n        self._shutdownIfIdle()\n\n    def _shutdownIfIdle(self):\n        idle = not self._appSendBuffer and self._producer is None\n        if idle:\n            self._shutdownTLS()\n\n    def abortConnection"),
     Silent("aggregator-clear-spelled", T, "            del self._buffer[:]\n", "            self._buffer.clear()\n"),
 ]
